@@ -206,7 +206,14 @@ type Sock struct {
 	BlockWrites bool  // WriteTo parks until write deadline, Close or UnblockWrites
 	WriteErr    error // WriteTo fails with this error
 	CloseErr    error // Close returns this error (socket is closed anyway)
-	SetWDLErr   error // SetWriteDeadline fails with this error
+	// CloseStaysOpen: with CloseErr set, the failed Close leaves the socket open and working (what a wrapper
+	// or fake connection whose Close fails may do); only deadlines can then unblock its readers
+	CloseStaysOpen bool
+	// ReadWakeDelay: a reader that was blocked when the socket got closed (or its deadline moved into the
+	// past) returns only this much later - the wake-up reaches the goroutine late
+	ReadWakeDelay time.Duration
+	readers       int
+	SetWDLErr     error // SetWriteDeadline fails with this error
 
 	WDLHistory     []time.Time // every SetWriteDeadline value seen
 	BlockedNow     int         // writers currently parked in WriteTo
@@ -233,11 +240,36 @@ func opErr(op string, err error) error {
 	return &net.OpError{Op: op, Net: "udp", Err: err}
 }
 
+// Readers returns how many goroutines are inside a read call of this socket right now.
+func (s *Sock) Readers() int {
+	s.w.mu.Lock()
+	defer s.w.mu.Unlock()
+	return s.readers
+}
+
 func (s *Sock) readFromAP(b []byte) (int, netip.AddrPort, error) {
+	s.w.mu.Lock()
+	s.readers++
+	s.w.mu.Unlock()
+	waited := false
+	defer func() {
+		s.w.mu.Lock()
+		s.readers--
+		s.w.mu.Unlock()
+	}()
+	late := func() {
+		s.w.mu.Lock()
+		d := s.ReadWakeDelay
+		s.w.mu.Unlock()
+		if waited && d > 0 {
+			time.Sleep(d)
+		}
+	}
 	for {
 		s.w.mu.Lock()
 		if s.closed {
 			s.w.mu.Unlock()
+			late()
 			return 0, netip.AddrPort{}, opErr("read", errClosed)
 		}
 		if len(s.rx) > 0 {
@@ -254,10 +286,12 @@ func (s *Sock) readFromAP(b []byte) (int, netip.AddrPort, error) {
 		if !dl.IsZero() {
 			d := time.Until(dl)
 			if d <= 0 {
+				late()
 				return 0, netip.AddrPort{}, opErr("read", os.ErrDeadlineExceeded)
 			}
 			t := time.NewTimer(d)
 			tc = t.C
+			waited = true
 			select {
 			case <-wake:
 			case <-tc:
@@ -265,6 +299,7 @@ func (s *Sock) readFromAP(b []byte) (int, netip.AddrPort, error) {
 			t.Stop()
 			continue
 		}
+		waited = true
 		<-wake
 	}
 }
@@ -413,6 +448,9 @@ func (s *Sock) Close() error {
 	if s.closed {
 		s.w.Stats.RedundantCloses++
 		return opErr("close", errClosed)
+	}
+	if s.CloseErr != nil && s.CloseStaysOpen {
+		return s.CloseErr
 	}
 	s.closed = true
 	s.ClosedAt = time.Now()
